@@ -225,11 +225,17 @@ def analyse(case, obs):
     running = False               # Service.running: startService / stopService, whichever came last
     flag_at = flag_kind = None
     fail = None
+    robust = None
 
     def bad(t, why, tag):
-        nonlocal fail
+        nonlocal fail, robust
+        f = (t, f"op {t} {ops[t]} -> {','.join(groups[t]) or '.'}: {why}", tag)
         if fail is None:
-            fail = (t, f"op {t} {ops[t]} -> {','.join(groups[t]) or '.'}: {why}", tag)
+            fail = f
+        # rules that do not depend on which connections are open hold for EVERY history, also after a connection
+        # was left untracked by a failed / cancelled / interrupted prepareConnection
+        if robust is None and tag in ROBUST_TAGS:
+            robust = f
 
     def flag(t, kind):
         nonlocal flag_at, flag_kind
@@ -297,7 +303,9 @@ def analyse(case, obs):
             elif e[0] == "R":
                 n = int(e[1:])
                 if n != consecutive + 1:
-                    bad(t, f"retry policy asked for {n} but {consecutive} consecutive failure(s) so far", "retry-count")
+                    bad(t, f"retry policy called with {n} although {consecutive} consecutive failure(s) (failed connects, connections "
+                           f"rejected by prepareConnection, lost connections -- since the last connection the hook ACCEPTED) precede "
+                           f"this one: the argument must be {consecutive + 1}", "retry-count")
                 consecutive = n
                 accepted = False
             elif e[0] == "T":
@@ -384,13 +392,22 @@ def analyse(case, obs):
             late = [i for i, f in stops.items() if not f and not (alive_at[i] & now_alive)]
             if late:
                 bad(t, f"stopService Deferred(s) {late} unfired although everything that was open when stop was requested is closed", "stop-late")
+    analyse.robust = robust
     return fail, flag_at, flag_kind
+
+
+ROBUST_TAGS = ("retry-count", "retry-delay", "when-twice", "stop-twice", "when-unknown", "stop-unknown", "log")
 
 
 def oracle(case, obs):
     fail, flag_at, flag_kind = analyse(case, obs)
     if fail is None:
         return None
+    if analyse.robust is not None:
+        # e.g. the consecutive-failure count passed to the retry policy: it is reset only once prepareConnection has
+        # accepted a connection (rememberConnection), whatever happened to rejected connections
+        t, reason, tag = analyse.robust
+        return Failure(case, reason, tag)
     t, reason, tag = fail
     if flag_at is not None and flag_at <= t:
         return Failure(case, reason + f"  [after op {flag_at}: prepareConnection of a connection did not succeed "
@@ -437,6 +454,29 @@ def gen(rng, tier):
             for word in itertools.product(letters, repeat=n):
                 if word[0] != "s":
                     cases.append({"delays": delays, "prep": prep, "ops": [ALPHA[l] for l in word]})
+    # every sequence of attempt outcomes {connect fails, hook rejects at once, hook rejects later, accepted at once, accepted
+    # later}, each followed by the retry timer: the argument of the retry policy must count consecutive failures since the
+    # last ACCEPTED connection (delays differ per argument)
+    seq_len = 4 if tier == "quick" else 6
+    for n in range(1, seq_len + 1):
+        for word in itertools.product("FRrAa", repeat=n):
+            if tier == "quick" and n == seq_len and rng.random() > 0.3:
+                continue
+            if tier != "quick" and n >= 5 and rng.random() > (0.5 if n == 5 else 0.15):
+                continue
+            ops, prep = ["start"], []
+            for w in word:
+                if w == "F":
+                    ops += ["cfail", ["adv", 20]]
+                elif w == "R":
+                    prep.append("raise"); ops += ["cok", ["adv", 20]]
+                elif w == "r":
+                    prep.append("defer"); ops += ["cok", "pfail", ["adv", 20]]
+                elif w == "A":
+                    prep.append("ok"); ops += ["cok", ["when", None], ["drop", rng.choice([0, 0, 1])], ["adv", 20]]
+                else:
+                    prep.append("defer"); ops += ["cok", "pok", ["drop", 0], ["adv", 20]]
+            cases.append({"delays": [1, 2, 3, 5, 8, 13, 20], "prep": prep or ["ok"], "ops": ops})
     # start/stop/whenConnected while Disconnecting / Restarting, the connection loss delivered afterwards
     rl = 4 if tier == "quick" else 6
     for delays, prep in [([1, 2], []), ([1, 2], ["defer"]), ([0, 1], ["ok"])]:
@@ -477,6 +517,9 @@ def corpus():
         {"delays": d, "prep": ["raise", "ok"], "ops": ["start", "cok", ["adv", 1], "cok", ["drop", 0], ["adv", 1], "cok"]},
         {"delays": d, "prep": ["defer"], "ops": ["start", "cok", "pfail", ["adv", 1], "cok"]},
         {"delays": d, "prep": ["defer"], "ops": ["start", "cok", ["drop", 0], "pok", ["when", None], "stop"]},
+        # the failure count resets only when the hook has accepted a connection (seeded C58-E): reject x3; fail, fail, reject
+        {"delays": [1, 2, 3, 5], "prep": ["raise"], "ops": ["start", "cok", ["adv", 9], "cok", ["adv", 9], "cok", ["adv", 9]]},
+        {"delays": [1, 2, 3, 5], "prep": ["defer"], "ops": ["start", "cfail", ["adv", 9], "cfail", ["adv", 9], "cok", "pfail", ["adv", 9], "cok", "pok"]},
         # stop while a restart is pending must cancel the restart (seeded C58-A)
         {"delays": d, "prep": [], "ops": ["start", "cok", "stop", "start", ["when", None], "stop", ["drop", 0], "cok", ["when", None]]},
         # failure limits, retries, stop/restart while disconnecting
